@@ -337,6 +337,9 @@ def run(repo: Repo, rep: Report, tier: str) -> None:
     check_handler_dataset_replacement(repo, rep)
     check_handler_block_minimal(repo, rep, dimse_events)
     check_encode_total(repo, rep)
+    from ..delegate import delegate as _delegate21
+    rep.rule("handler-exception-status", "whatever a handler's block ends with is turned by `attempt` into exactly one response carrying the documented failure status (C20's attempt rule)")
+    _delegate21(repo, rep, tier, "C20", ("attempt",), "handler-exception-status", "a handler that ends with an exception `attempt` does not catch gets no response at all instead of the documented failure status (0xC211 for C-STORE, 0x0110 for DIMSE-N)")
     from .c17 import check_fresh_message
     check_fresh_message(repo, rep, "reply-fresh")
     from ..delegate import delegate
